@@ -4,30 +4,34 @@
     by the correspondence check of C10. Executable only. *)
 From JSL Require Import Base Instance Dstate Filters World.
 
-Inductive okind := KHist | KUnsched | KMakespan | KIdle | KRec (single : bool).
+Inductive okind := KHist | KUnsched | KMakespan | KIdle | KRec (single : bool) | KFeat.
 
 Inductive obs :=
 | OHist (h : list sop)
 | OUnsched (dq : list (list (nat * nat)))
 | OMakespan (rw : list Z) (cur : Z)
 | OIdle (rw : list Z)
-| ORec (single : bool) (log : list val).
+| ORec (single : bool) (log : list val)
+(* a feature observer seen only as a subscriber (non-singleton class, state not
+   modelled here: FeatureObservers.v does that) *)
+| OFeat.
 
 Definition kind_of (o : obs) : okind :=
   match o with
   | OHist _ => KHist | OUnsched _ => KUnsched | OMakespan _ _ => KMakespan
-  | OIdle _ => KIdle | ORec s _ => KRec s
+  | OIdle _ => KIdle | ORec s _ => KRec s | OFeat => KFeat
   end.
 Definition kind_eqb (a b : okind) : bool :=
   match a, b with
   | KHist, KHist | KUnsched, KUnsched | KMakespan, KMakespan | KIdle, KIdle => true
   | KRec x, KRec y => Bool.eqb x y
+  | KFeat, KFeat => true
   | _, _ => false
   end.
 (** [_is_singleton]: the class default [True] everywhere except the
     non-singleton recorder class. *)
 Definition is_singleton (k : okind) : bool :=
-  match k with KRec s => s | _ => true end.
+  match k with KRec s => s | KFeat => false | _ => true end.
 
 Definition pop_job (dq : list (list (nat * nat))) (j : nat) : list (list (nat * nat)) :=
   match nth_error dq j with
@@ -59,6 +63,7 @@ Definition o_update (I : instance) (fs : list fname) (d : dstate) (x : sop) (o :
                   | None => s_start x end in
       OIdle (rw ++ [- idle])
   | ORec s log => ORec s (log ++ [rec_entry I fs d 0 (Some x)])
+  | OFeat => OFeat
   end.
 
 Definition all_deques (I : instance) : list (list (nat * nat)) :=
@@ -71,6 +76,7 @@ Definition o_reset (I : instance) (fs : list fname) (d : dstate) (o : obs) : obs
   | OMakespan _ _ => OMakespan [] (makespan_code I (sched d))
   | OIdle _ => OIdle []
   | ORec s log => ORec s (log ++ [rec_entry I fs d 1 None])
+  | OFeat => OFeat
   end.
 
 (** Constructors, run when the dispatcher is in state [d]. *)
@@ -82,6 +88,7 @@ Definition o_construct (I : instance) (d : dstate) (k : okind) : obs :=
   | KMakespan => OMakespan [] (makespan_code I (sched d))
   | KIdle => OIdle []
   | KRec s => ORec s []
+  | KFeat => OFeat
   end.
 
 Definition wld := world obs.
@@ -133,9 +140,10 @@ Definition enc_obs (I : instance) (d : dstate) (o : obs) : val :=
       VL [VI 2; vlist VI rw; VI cur; VI (match last_opt rw with Some r => r | None => 0 end)]
   | OIdle rw => VL [VI 3; vlist VI rw; VI (match last_opt rw with Some r => r | None => 0 end)]
   | ORec s log => VL [VI 4; vbool s; VL log]
+  | OFeat => VL [VI 5]
   end.
 
 Definition dec_okind (v : val) : okind :=
   match asZ v with
-  | 0 => KHist | 1 => KUnsched | 2 => KMakespan | 3 => KIdle | 4 => KRec true | _ => KRec false
+  | 0 => KHist | 1 => KUnsched | 2 => KMakespan | 3 => KIdle | 4 => KRec true | 6 => KFeat | _ => KRec false
   end.
